@@ -232,6 +232,22 @@ func (g *Gen) valsOffset(n int) []float64 {
 	return out
 }
 
+// every fibre along the last dimension at its own large offset (columns of a feature table: a ratio, a temperature,
+// a timestamp): the spread statistics of a fibre do not depend on where the OTHER fibres sit
+func (g *Gen) valsFibreOffsets(ds []int) []float64 {
+	n := prod(ds)
+	out := make([]float64, n)
+	last := 1
+	if len(ds) > 0 {
+		last = ds[len(ds)-1]
+	}
+	offs := []float64{0.5, 273, 1.7e9, 52000, -3e6, 8e11}
+	for i := range out {
+		out[i] = offs[(i%last)%len(offs)] + float64(g.intn(200))*0.5
+	}
+	return out
+}
+
 // directVar checks Var/Std (whole tensor: dim < 0, or along dim) of tensor a against the defining two-pass
 // formula evaluated here (the specification the model is proved equal to), for tensors too large for the
 // model's expression trees.
